@@ -153,6 +153,135 @@ def check_states(problems):
         env.close()
 
 
+def _truth_outputs(truth):
+    """scripted outputs of the status commands for a scheduler that knows exactly the jobs in `truth`
+    (id -> 'R' | 'PD'), plus an unrelated job 9 of another user"""
+    sq = "".join(f"{j};{s}\n" for j, s in truth.items()) + "9;R\n"
+    xml = "<job_info><queue_info>" + "".join(
+        f"<job_list><JB_job_number>{j}</JB_job_number><state>{'r' if s == 'R' else 'qw'}</state></job_list>"
+        for j, s in list(truth.items()) + [("9", "R")]) + "</queue_info></job_info>"
+    return {"squeue": sq, "sacct": "", "qstat": xml,
+            "bjobs": {"__jobs__": {j: ("RUN" if s == "R" else "PEND") for j, s in truth.items()}}}
+
+
+def check_job_tables(problems):
+    """C08: several tracked jobs, some of them forgotten by the scheduler, in every order: each id gets its own state"""
+    import itertools
+    from gwf.backends.base import BackendStatus as B
+    env = Env()
+    try:
+        ops = make_ops(env)
+        truth = {"102": "R", "103": "PD"}
+        want = {"101": B.UNKNOWN, "102": B.RUNNING, "103": B.SUBMITTED, "104": B.UNKNOWN}
+        for name, (o, _) in ops.items():
+            for order in itertools.permutations(["101", "102", "103", "104"]):
+                env.outputs(_truth_outputs(truth))
+                got = o.get_job_states(list(order))
+                bad = {j: got.get(j, B.UNKNOWN).name for j in order if got.get(j, B.UNKNOWN) != want[j]}
+                if bad:          # (extra entries for other users' jobs are harmless: only tracked ids are looked up)
+                    problems.append(f"{name}: tracked jobs {list(order)}, the scheduler knows 102 (running) and 103 (pending) "
+                                    f"and has forgotten 101 and 104: reported {({j: s.name for j, s in got.items()})}")
+                    break
+    finally:
+        env.close()
+
+
+def check_submit_history(problems):
+    """C07: prerequisites submitted in an earlier invocation: the dependent is held on exactly the ids of its
+    incomplete direct dependencies, also when the tracked-jobs file lists jobs the scheduler has forgotten"""
+    from gwf.backends.base import TrackingBackend
+    from gwf.core import Graph, CachedFilesystem, Target, NoopSpecHashes
+    from gwf.scheduling import submit_workflow
+    import logging
+    logging.getLogger("gwf").setLevel(logging.CRITICAL)
+    hold = {"slurm": lambda a: [x for x in a if x.startswith("--dependency=")],
+            "sge": lambda a: a[a.index("-hold_jid") + 1:a.index("-hold_jid") + 2] if "-hold_jid" in a else [],
+            "lsf": lambda a: a[a.index("-w") + 1:a.index("-w") + 2] if "-w" in a else []}
+    want_hold = {"slurm": ["--dependency=afterok:102"], "sge": ["102"], "lsf": ["done(102)"]}
+    cmd = {"slurm": "sbatch", "sge": "qsub", "lsf": "bsub"}
+    printed = {"slurm": "200\n", "sge": "200\n", "lsf": "Job <200> is submitted to queue <normal>.\n"}
+    for tracked_order in (["Old", "Prep"], ["Prep", "Old"], ["Old", "Prep", "Older"]):
+        env = Env()
+        try:
+            ops = make_ops(env)
+            for name, (o, defaults) in ops.items():
+                ids = {"Old": "101", "Prep": "102", "Older": "100"}
+                json.dump({k: ids[k] for k in tracked_order}, open(os.path.join(env.dir, ".gwf", f"{name}-backend-tracked.json"), "w"))
+                for f, age in (("old.txt", 300), ("prep.txt", 100)):      # prep.txt exists (partially written)
+                    open(os.path.join(env.dir, f), "w").close()
+                    os.utime(os.path.join(env.dir, f), (1e9 - age, 1e9 - age))
+                opts = {k: v for k, v in defaults.items() if v is not None}
+                ts = {"Old": Target(name="Old", inputs=[], outputs=["old.txt"], options=dict(opts), working_dir=env.dir),
+                      "Prep": Target(name="Prep", inputs=[], outputs=["prep.txt"], options=dict(opts), working_dir=env.dir),
+                      "Final": Target(name="Final", inputs=["prep.txt", "old.txt"], outputs=["final.txt"], options=dict(opts),
+                                      working_dir=env.dir)}
+                out = _truth_outputs({"102": "R"})
+                out[cmd[name]] = printed[name]
+                env.outputs(out)
+                fs = CachedFilesystem()
+                g = Graph.from_targets(ts, fs)
+                be = TrackingBackend(env.dir, name=name, ops=o)
+                try:
+                    submit_workflow([ts["Final"]], g, fs, NoopSpecHashes(), be)
+                finally:
+                    be.close()
+                subs = [c for c in env.calls() if c[0] == cmd[name]]
+                if len(subs) != 1:
+                    problems.append(f"{name}: tracked {tracked_order} (101/100 finished and forgotten, 102 running): expected one "
+                                    f"submission (Final), saw {len(subs)}: {[c[1] for c in subs]}")
+                elif hold[name](subs[0][1]) != want_hold[name]:
+                    problems.append(f"{name}: tracked {tracked_order} (job 101 of Old finished and forgotten, job 102 of Prep "
+                                    f"running): Final was submitted with {subs[0][1]}; it must be held on exactly job 102")
+                if problems:
+                    return
+        finally:
+            env.close()
+
+
+def check_call_failures(problems):
+    """C09 (failure kinds of a scheduler command): a submit / cancel command that exits non-zero, or exits 0 with
+    'error:' on stderr, is a BackendError; a rejected submission tracks no job"""
+    from gwf.backends.base import TrackingBackend
+    from gwf.backends.exceptions import BackendError
+    kinds = {"non-zero exit": {"exit": 1, "stderr": "failed\n"},
+             "error on stderr, exit 0": {"exit": 0, "stderr": "sbatch: error: Batch job submission failed: Invalid account\n"},
+             "non-zero exit with output": {"exit": 3, "stdout": "4242\n"}}
+    cmd = {"slurm": "sbatch", "sge": "qsub", "lsf": "bsub"}
+    kill = {"slurm": "scancel", "sge": "qdel", "lsf": "bkill"}
+    for kind, spec in kinds.items():
+        env = Env()
+        try:
+            ops = make_ops(env)
+            for name, (o, defaults) in ops.items():
+                out = _truth_outputs({})
+                out[cmd[name]] = {"__fail__": spec}
+                out[kill[name]] = {"__fail__": spec}
+                env.outputs(out)
+                be = TrackingBackend(env.dir, name=name + "f", ops=o)
+                t = target(env, "a", **{k: v for k, v in defaults.items() if v is not None})
+                try:
+                    be.submit(t, [])
+                    problems.append(f"failures: {name}: {cmd[name]} failed ({kind}) but submit() returned normally and tracks "
+                                    f"job {be._tracked_jobs.get('a')!r} for the target")
+                except BackendError:
+                    if "a" in be._tracked_jobs:
+                        problems.append(f"failures: {name}: {cmd[name]} failed ({kind}): BackendError, yet the target is tracked "
+                                        f"as job {be._tracked_jobs['a']!r}")
+                except Exception as e:
+                    problems.append(f"failures: {name}: {cmd[name]} failed ({kind}): {type(e).__name__}: {e} instead of BackendError")
+                try:
+                    o.cancel_job("77")
+                    problems.append(f"failures: {name}: {kill[name]} failed ({kind}) but cancel_job() returned normally")
+                except BackendError:
+                    pass
+                except Exception as e:
+                    problems.append(f"failures: {name}: {kill[name]} failed ({kind}): {type(e).__name__}: {e} instead of BackendError")
+                if problems:
+                    return
+        finally:
+            env.close()
+
+
 def check_scripts(problems):
     """C10: the generated script, run by bash from another directory, executes the spec verbatim in the target's
     working directory and stops at the first failing command; None options are omitted; unknown placeholders never
@@ -281,20 +410,25 @@ def check_logs(problems):
         from gwf.plugins.run import clean_logs
 
         class G:
-            targets = {"t1": None, "keep_me": None}
+            targets = {"t1": None, "keep_me": None, "gone.sample1": None, "t": None}     # names may contain dots
 
         logs = p.path(".gwf/logs")
         for f in os.listdir(logs):
             os.unlink(os.path.join(logs, f))
-        names = ["t1.stdout", "t1.stderr", "keep_me.stdout", "gone.stdout", "gone.stderr", "t1x.stdout", "t.stdout"]
+        names = ["t1.stdout", "t1.stderr", "keep_me.stdout", "gone.stdout", "gone.stderr", "t1x.stdout", "t.stdout",
+                 "gone.sample1.stdout", "gone.sample1.stderr", "gone.sample2.stdout", "t.extra.stderr"]
         for f in names:
             open(os.path.join(logs, f), "w").close()
         open(p.path("gone.stdout"), "w").close()                # same name outside the log directory
         clean_logs(p.dir, G())
         left = sorted(os.listdir(logs))
-        want = ["keep_me.stdout", "t1.stderr", "t1.stdout"]
-        if left != want or not os.path.exists(p.path("gone.stdout")):
-            problems.append(f"logs: clean_logs with targets ['keep_me', 't1'] left {left} in .gwf/logs (expected {want}); "
+        # C10 says ONLY: every log of a target that is still part of the workflow must survive (whether every stale
+        # log goes is not prescribed: a missing .stdout makes the real code skip the .stderr, for instance)
+        must_keep = ["gone.sample1.stderr", "gone.sample1.stdout", "keep_me.stdout", "t.stdout", "t1.stderr", "t1.stdout"]
+        lost = [f for f in must_keep if f not in left]
+        if lost or not os.path.exists(p.path("gone.stdout")):
+            problems.append(f"logs: clean_logs with targets {sorted(G.targets)} and log files {sorted(names)} deleted {lost}, "
+                            f"logs of targets that are still part of the workflow (left: {left}); "
                             f"file outside the log directory still there: {os.path.exists(p.path('gone.stdout'))}")
     finally:
         p.close()
@@ -366,6 +500,7 @@ def run(which):
         p = " ".join(problems)
         wc = ("option-resolution" if problems[0].startswith("options:") else
               "log-files" if problems[0].startswith("logs:") else
+              "command-failure-kinds" if problems[0].startswith("failures:") else
               "sge-id-with-newline" if "sge" in problems[0] and "4242" in problems[0] else
               "cd-unquoted" if "the spec ran in" in p else "ops-other")
         return {"failed_on_real_code": True, "input": {"scenario": problems[0].split(":")[0]}, "observed": problems[:8],
